@@ -16,6 +16,7 @@ EXPLANATION = (
   "the time of sequence entry i+1 and None for the last entry, evaluated over an abstract 3-entry sequence; (FIN-hull) the cached content interval of a document is the hull of its content intervals (unbounded absorbing), so no "
   "interval with visible text is skipped; (ORD-docorder) paragraphs are collected in one in-order pass; (FIN-default) an open last "
   "cue ends exactly 10 s after its own begin and blank open cues are removed. Decides these clauses, not the text/ordering behaviour."
+  " (STATE-alias / STATE-global) no function of the anchored modules mutates a module- or class-level container, rebinds module / class state or mutates a mutable default argument, so a result never depends on earlier calls;"
 )
 RULE_TEXT = ("one rule instance per (function, live loop), per (flattener, element kind), per writer for SEQ-end / FIN-default; "
              "distinct = distinct (rule, construct) pairs")
